@@ -314,6 +314,8 @@ def gen_plan(prop, r, tier, run):
             if prop == 'C18':
                 op['cov'] = True
                 op['reextract'] = r.chance(0.3)
+                op['via_copy'] = r.weighted([(6, None), (2, 'deepcopy'),
+                                             (2, 'pickle')])
                 if op['form'] == 'series':
                     op['form'] = 'list'
                     op.pop('split', None)
@@ -459,6 +461,14 @@ def gen_c14(r, clients):
             ops.append({'op': 'stale_out', 'client': 'A', 'out_file': of,
                         'lines': ['^[A-Z]{2}\\-[0-9]{3,5}\\ earlier\\ run$']
                         * r.randint(2, 6)})
+        if r.chance(0.4):
+            # a first attempt on that list of lines goes wrong part-way
+            bad = variant('streams-failing', form='streams', examples=lines,
+                          skip_header=sh, header='code', stream_key='K0')
+            bad['opts'] = dict(bad['opts'], dialect='pearl')
+            bad['expect_raise'] = True
+            bad.pop('group', None)
+            ops.append(bad)
         for nm in ('streams', 'streams-again'):
             v = variant(nm, form='streams', examples=lines,
                         skip_header=sh, header='code', stream_key='K0')
@@ -1233,6 +1243,21 @@ def run_cov(ctx, op, kept):
         return
     rex = list(x.results.rex)
     ev['rex'] = rex
+    if op.get('via_copy'):
+        # the figures are asked of a copy of the extractor (sent back from
+        # a worker process, or kept aside with copy.deepcopy)
+        try:
+            if op['via_copy'] == 'pickle':
+                import pickle
+                x = pickle.loads(pickle.dumps(x))
+            else:
+                x = copy.deepcopy(x)
+            ctx.stats['probes']['figures_asked_of_a_%s_copy'
+                                % op['via_copy']] += 1
+        except WatchdogTimeout:
+            raise
+        except Exception:
+            ctx.stats['abstain']['extractor_cannot_be_copied'] += 1
     if ctx.plan_config.get('caller_edits_results') and \
             isinstance(ctx.last_input, (list, dict)):
         # the caller goes on using its own container (a buffer that keeps
